@@ -133,6 +133,32 @@ def uniform_flow(rng, g):
     return [np.full(g.face_shape(k), float(rng.choice([-1.0, 1.0]) * 10 ** rng.uniform(-1, 1))) for k in range(g.nd)]
 
 
+def axis_flow(rng, g, k=None):
+    """flow along one non-radial coordinate k whose flux A_k*u_k does not vary along k (so every cell's in- and out-flux
+    through its two k-faces cancel): u_k = G(other coordinates) / a_k(q_k), where a_k is the part of the face area that
+    varies along k (1 except for the polar angle of SphericalGrid3D, a_theta ~ sin(theta_f)).  Examples: axial flow in
+    cylindrical grids, rigid rotation u_theta = w(r) in polar grids, zonal flow u_phi(r, theta) on the sphere."""
+    cand = [j for j in range(g.nd) if AXKIND[g.cls][j] != 'rad']
+    if g.cls == 'SphericalGrid3D':
+        cand = [j for j in cand if j != 1 or (np.all(np.sin(g.faces[1]) > 1e-3))]
+    if not cand:
+        return None, None
+    k = int(rng.choice(cand)) if k is None else k
+    A = code_areas(g, k)
+    # flux constant along k: take the flux profile of the first face layer, repeat it along k
+    first = [slice(None)] * g.nd
+    first[k] = slice(0, 1)
+    Gprof = rng.normal(0, 1, A[tuple(first)].shape) * 10 ** rng.uniform(-1, 1)
+    if rng.random() < 0.5:
+        Gprof = np.abs(Gprof) * float(rng.choice([-1.0, 1.0]))       # one-signed: pure inflow on one side, outflow on the other
+    flux = np.broadcast_to(Gprof * A[tuple(first)], A.shape)
+    with np.errstate(all='ignore'):
+        uk = np.where(A > 0, flux / np.where(A > 0, A, 1.0), 0.0)
+    u = [np.zeros(g.face_shape(j)) for j in range(g.nd)]
+    u[k] = uk
+    return u, k
+
+
 def discrete_div_error(m, g, u):
     """normalised discrete divergence |divergenceTerm(u)| / (sum_f |A_f u_f| / V) measured with the REAL divergenceTerm"""
     d = np.asarray(pf.divergenceTerm(gen.facevar(pf, m, u))).ravel()[interior_index(g.dims)].reshape(g.dims)
